@@ -769,6 +769,8 @@ def check_independence(out, o, h, mu, method, rng, tol=1e-3):
     nh = o["n_p"] * h
     nT = o["n_p"] * dt
     bound = (0.012 + 0.5 * o["rp"] * nh ** 4 * (1 + nT) ** 2) if method == "rk4" else (0.012 + 10 * (dt / h + 8) * tol * (1 + nT))
+    if method == "euler":
+        bound = 0.012 + 2.0 * o["rp"] * nh * nT * (1 + nT) * math.exp(nT)
     if err > bound:
         out.fail(method + "-iter-error", "iterated state is farther from the analytical solution than the integrator's accuracy bound",
                  dict(inp, date_offset=dt), observed=err, expected=bound)
@@ -817,6 +819,279 @@ def check_chained(out, o, h, T, mu, method, tol):
                  inp, observed=err, expected=bound)
 
 
+# ---------------------------------------------------------------- short spans and output grids (the padding rule of _iter)
+
+SHORT_FORMS = ["step-smaller", "step-equal", "step-larger", "step-incommensurate", "dates-list", "dates-range", "backward-step",
+               "backward-explicit", "dates-before-epoch", "dates-across-epoch", "start-offset", "ephem"]
+
+
+def plan_short(rng, o, h, method, tol=1e-3, form=None):
+    """a request over a span of 1..10 integration steps whose outputs are (mostly) not integration points; everything drawn
+    here is recorded so that a failure replays exactly"""
+    n = rng.randint(1, 10)
+    span = q(h * (n - rng.choice([0.0, 0.0, rng.uniform(0.05, 0.95)])))
+    if span <= 0:
+        span = q(h * n)
+    form = form or rng.choice(SHORT_FORMS)
+    ratio = {"step-smaller": rng.choice([0.1, 0.25, 1 / 3, 0.5, 0.77]), "step-equal": 1.0, "step-larger": rng.choice([1.5, 2.0, 3.0, 4.4]),
+             "step-incommensurate": rng.choice([1 / math.pi, math.sqrt(2) / 2, math.sqrt(2), math.e / 2])}.get(form, rng.choice([0.25, 0.37, 0.5, 1.0, 1.3]))
+    outs = max(q(ratio * h), 1e-3)
+    plan = {"form": form, "method": method, "tol": tol, "step": h, "nsteps": n, "span": span, "out_step": outs}
+    if form in ("dates-list", "dates-before-epoch", "dates-across-epoch"):
+        k = rng.randint(1, 5)
+        offs = [q(rng.uniform(0, span)) for _ in range(k)]
+        if form == "dates-before-epoch":
+            offs = [-x - q(rng.uniform(0, h)) for x in offs]
+        elif form == "dates-across-epoch":
+            offs = [x - q(span * rng.uniform(0.2, 0.8)) for x in offs]
+        plan["offsets"] = offs            # in the drawn (arbitrary) order
+    if form == "start-offset":
+        plan["start"] = q(h * rng.uniform(-3, 3))
+    return plan
+
+
+def run_short(out, o, mu, plan):
+    import numpy as np
+    from beyond.dates import timedelta, Date
+    form, method, tol, h, span, outs = plan["form"], plan["method"], plan["tol"], plan["step"], plan["span"], plan["out_step"]
+    orb = make(o["x0"], h, method, tol=tol)
+    d0 = orb.date
+    td = lambda x: timedelta(seconds=x)
+    inp = case_inp(o, h, span, **{k: v for k, v in plan.items() if k not in ("step", "span")})
+    same_grid = True          # the request integrates from the epoch itself: iterate and propagate share their integration points
+    if form.startswith("step-"):
+        pts = list(orb.iter(stop=td(span), step=td(outs)))
+        want_dates = [d0 + td(outs) * i for i in range(int(math.floor(span / outs + 1e-9)) + 1)]
+    elif form == "ephem":
+        pts = list(orb.ephem(stop=td(span), step=td(outs)))
+        want_dates = [d0 + td(outs) * i for i in range(int(math.floor(span / outs + 1e-9)) + 1)]
+    elif form in ("dates-list", "dates-before-epoch", "dates-across-epoch"):
+        want_dates = [d0 + td(x) for x in plan["offsets"]]
+        pts = list(orb.iter(dates=list(want_dates)))
+        same_grid = min(plan["offsets"]) == 0
+    elif form == "dates-range":
+        want_dates = list(Date.range(d0, d0 + td(span), td(outs), inclusive=True))
+        pts = list(orb.iter(dates=Date.range(d0, d0 + td(span), td(outs), inclusive=True)))
+    elif form == "backward-step":
+        pts = list(orb.iter(stop=-td(span), step=td(outs)))
+        want_dates = [d0 - td(outs) * i for i in range(int(math.floor(span / outs + 1e-9)) + 1)]
+    elif form == "backward-explicit":
+        pts = list(orb.iter(start=d0, stop=d0 - td(span), step=-td(outs)))
+        want_dates = [d0 - td(outs) * i for i in range(int(math.floor(span / outs + 1e-9)) + 1)]
+    elif form == "start-offset":
+        s0 = d0 + td(plan["start"])
+        pts = list(orb.iter(start=s0, stop=s0 + td(span), step=td(outs)))
+        want_dates = [s0 + td(outs) * i for i in range(int(math.floor(span / outs + 1e-9)) + 1)]
+        same_grid = plan["start"] == 0
+    else:
+        raise ValueError(form)
+    out.count(key=("short", form, method, h, span, outs, o["rp"]), kind="short-span-" + form, method=method, nsteps=plan["nsteps"])
+    got_dates = [p.date for p in pts]
+    if got_dates != want_dates:
+        # more dates than requested after `stop` belong to the iteration contract (C08); fewer, or other dates, are reported here
+        if got_dates[:len(want_dates)] != want_dates:
+            out.fail("short-span-dates-" + form, "iteration over a short span does not yield the requested dates", inp,
+                     observed=[(d - d0).total_seconds() for d in got_dates], expected=[(d - d0).total_seconds() for d in want_dates])
+            return
+        out.tally("short-span-extra-dates-after-stop(C08)")
+        pts = pts[:len(want_dates)]
+    vmax = math.sqrt(mu * (1 + o["e"]) / o["rp"])
+    tight = interp_tol(o, h, vmax)
+    nh = o["n_p"] * h
+    worst = (0.0, None)
+    for pt in pts:
+        dt = (pt.date - d0).total_seconds()
+        a = vec(pt)
+        if not _finite(out, "short-span-" + form, "iter", dict(inp, date_offset=dt), a):
+            return
+        nT = o["n_p"] * (abs(dt) + (0 if same_grid else abs(plan.get("start", 0.0)) + span))
+        N = abs(dt) / h + 8
+        acc = {"rk4": 0.5 * o["rp"] * nh ** 4 * (1 + nT) ** 2, "euler": 2.0 * o["rp"] * nh * (nT + 8 * nh) * (1 + nT) * math.exp(nT + 8 * nh)}.get(method, 10 * (N + 8) * tol * (1 + nT))
+        # (1) the same date by propagate(): same integration points when the request starts at the epoch (interpolation error
+        # only); otherwise the integration restarts from an interpolated state: within the accuracy of the integrator
+        single = vec(orb.propagate(pt.date))
+        d = float(np.linalg.norm(single[:3] - a[:3]))
+        lim = tight if same_grid else tight + 2 * acc
+        if not d <= lim:
+            out.fail("short-span-iter-vs-propagate-" + form, "over a short span, iterate and propagate(date) disagree at the same date by more than the interpolation error"
+                     + ("" if same_grid else " and the accuracy of the integrator"), dict(inp, date_offset=dt), observed=d, expected=lim)
+            return
+        # (2) the analytical solution
+        err = float(np.linalg.norm(a[:3] - kepler_ref(o["x0"], dt, mu)[:3]))
+        lim2 = 0.012 + tight + acc
+        if err > worst[0]:
+            worst = (err, dt)
+        if not err <= lim2:
+            out.fail("short-span-vs-analytical-" + form, "over a short span, the iterated state is farther from the analytical two-body solution than the accuracy of the "
+                     "integrator plus the interpolation error", dict(inp, date_offset=dt), observed=err, expected=lim2)
+            return
+
+
+# ---------------------------------------------------------------- one propagator object re-used with changed attributes
+
+REUSE_ATTRS = ["method", "step", "tol", "bodies", "bodies-inplace", "frame", "maneuvers", "orbit"]
+
+
+def plan_reuse(rng, o, first=None):
+    """a history on ONE KeplerNum object: legs of (attribute changes, one call); every drawn value is recorded"""
+    cfg = {"method": rng.choice(METHODS), "step": q(rng.uniform(5, 120)), "tol": 10 ** rng.uniform(-6, -2), "bodies": ["Earth"], "frame": "EME2000",
+           "maneuvers": []}
+    legs = []
+    for k in range(rng.randint(2, 4)):
+        sets = {}
+        if k > 0:
+            attrs = [first] if (first and k == 1) else rng.sample(REUSE_ATTRS, rng.choice([1, 1, 2]))
+            for a in attrs:
+                if a == "method":
+                    sets["method"] = rng.choice([m for m in METHODS if m != cfg["method"]])
+                elif a == "step":
+                    sets["step"] = q(cfg["step"] * rng.choice([0.25, 0.5, 2.0, 0.37])) if rng.random() < 0.7 else q(rng.uniform(5, 120))
+                    sets["step"] = min(max(sets["step"], 5.0), 240.0)
+                elif a == "tol":
+                    sets["tol"] = cfg["tol"] * rng.choice([1e-3, 1e-2, 1e2, 1e3])
+                elif a == "bodies":
+                    sets["bodies"] = ["Earth", "Moon"] if cfg["bodies"] == ["Earth"] else ["Earth"]
+                elif a == "bodies-inplace":
+                    sets["bodies-inplace"] = "append-Moon" if "Moon" not in cfg["bodies"] else "remove-Moon"
+                elif a == "frame":
+                    sets["frame"] = "TOD" if cfg["frame"] == "EME2000" else "EME2000"
+                elif a == "maneuvers":
+                    sets["maneuvers"] = [] if cfg["maneuvers"] else [{"at": q(cfg["step"] * rng.uniform(0.5, 3)), "dv": [rng.uniform(-5, 5) for _ in range(3)]}]
+                elif a == "orbit":
+                    sets["orbit"] = 1 - legs[-1]["orbit"]
+        for a, v in sets.items():
+            if a == "bodies-inplace":
+                cfg["bodies"] = cfg["bodies"] + ["Moon"] if v == "append-Moon" else [b for b in cfg["bodies"] if b != "Moon"]
+            elif a != "orbit":
+                cfg[a] = v
+        n = rng.uniform(1, 25) if "Moon" not in cfg["bodies"] else rng.uniform(1, 6)
+        T = q(math.copysign(cfg["step"] * n, rng.choice([1, 1, -1])))
+        call = rng.choice(["propagate", "propagate", "iter-step", "iter-dates"])
+        legs.append({"set": sets, "call": call, "T": T, "out_step": q(abs(T) / rng.choice([1.0, 2.5, 4.0])) or 1e-3,
+                     "orbit": sets.get("orbit", legs[-1]["orbit"] if legs else 0), "cfg": dict(cfg)})
+    c0 = dict(legs[0]["cfg"])
+    return {"initial": c0, "legs": legs}
+
+
+def _bodies(names):
+    from beyond.env.solarsystem import get_body
+    return [get_body(n) for n in names]
+
+
+def _mans(orb, specs):
+    from beyond.orbits.man import ImpulsiveMan
+    from beyond.dates import timedelta
+    return [ImpulsiveMan(orb.date + timedelta(seconds=m["at"]), list(m["dv"]), frame="TNW") for m in specs]
+
+
+def _reuse_call(orb, leg):
+    """the call of one leg -> list of (date, state in EME2000 cartesian)"""
+    import numpy as np
+    from beyond.dates import timedelta
+    td = lambda x: timedelta(seconds=x)
+    if leg["call"] == "propagate":
+        res = [orb.propagate(td(leg["T"]))]
+    elif leg["call"] == "iter-step":
+        res = list(orb.iter(stop=td(leg["T"]), step=td(leg["out_step"])))
+    else:
+        res = list(orb.iter(dates=[orb.date + td(leg["T"]), orb.date + td(leg["T"] / 2), orb.date + td(leg["T"] / 3)]))
+    return [(r.date, np.array([float(v) for v in r.copy(frame="EME2000", form="cartesian").base])) for r in res]
+
+
+def run_reuse(out, o, mu, plan):
+    import numpy as np
+    from beyond.orbits import Orbit
+    from beyond.dates import timedelta
+    from beyond.propagators.keplernum import KeplerNum
+    c0 = plan["initial"]
+    prop = KeplerNum(timedelta(seconds=c0["step"]), _bodies(c0["bodies"]), method=c0["method"], frame=c0["frame"], tol=c0["tol"])
+    # two orbit objects may share the propagator object: the same state at the same date (so that the reference is the same)
+    orbs = [Orbit(list(o["x0"]), epoch(), "cartesian", "EME2000", prop) for _ in range(2)]
+
+    def fresh(cfg, override=None):
+        c = dict(cfg)
+        c.update(override or {})
+        f = Orbit(list(o["x0"]), epoch(), "cartesian", "EME2000",
+                  KeplerNum(timedelta(seconds=c["step"]), _bodies(c["bodies"]), method=c["method"], frame=c["frame"], tol=c["tol"]))
+        f.maneuvers = _mans(f, c["maneuvers"])
+        return f
+
+    prev = dict(c0)
+    changed = {}        # attribute -> value it had before its last change
+    for k, leg in enumerate(plan["legs"]):
+        cfg = leg["cfg"]
+        for a, v in leg["set"].items():
+            if a == "method":
+                prop.method = v
+            elif a == "step":
+                prop.step = timedelta(seconds=v)
+            elif a == "tol":
+                prop.tol = v
+            elif a == "bodies":
+                prop.bodies = _bodies(v)
+            elif a == "bodies-inplace":
+                if v == "append-Moon":
+                    prop.bodies.append(_bodies(["Moon"])[0])
+                else:
+                    prop.bodies[:] = [b for b in prop.bodies if b.name != "Moon"]
+            elif a == "frame":
+                prop.frame = v
+            elif a == "maneuvers":
+                for ob in orbs:
+                    ob.maneuvers = _mans(ob, v)
+        for a in ("method", "step", "tol", "bodies", "frame", "maneuvers"):
+            if cfg[a] != prev[a]:
+                changed[a] = prev[a]
+        prev = dict(cfg)
+        orb = orbs[leg["orbit"]]
+        inp = case_inp(o, cfg["step"], leg["T"], method=cfg["method"], tol=cfg["tol"], plan=plan, leg=k)
+        got = _reuse_call(orb, leg)
+        want = _reuse_call(fresh(cfg), leg)
+        out.count(key=("reuse", k, repr(leg["set"]), cfg["method"], cfg["step"], leg["T"], o["rp"]), nontrivial=k > 0, kind="reuse-" + leg["call"],
+                  changed="+".join(sorted(leg["set"])) or "nothing", method=cfg["method"])
+        bad = None
+        if [d for d, _ in got] != [d for d, _ in want]:
+            bad = ("dates", [str(d) for d, _ in got], [str(d) for d, _ in want])
+        else:
+            for (d, a), (_, b) in zip(got, want):
+                if not np.all(np.isfinite(a)):
+                    bad = ("non-finite state", [float(v) for v in a], [float(v) for v in b])
+                    break
+                dd = float(np.linalg.norm(a[:3] - b[:3]))
+                if not dd <= 1e-6:
+                    bad = ("position differs by %.6g m at %s" % (dd, d), [float(v) for v in a], [float(v) for v in b])
+                    break
+        if bad:
+            # which attribute does the re-used object still see with its former value?
+            stale = []
+            for a, old in changed.items():
+                try:
+                    alt = _reuse_call(fresh(cfg, {a: old}), leg)
+                    if len(alt) == len(got) and all(float(np.linalg.norm(x[1][:3] - y[1][:3])) <= 1e-6 for x, y in zip(alt, got)):
+                        stale.append(a)
+                except Exception:
+                    pass
+            fam = ("reuse-stale-" + "+".join(sorted(stale))) if stale else ("reuse-differs-after-set-" + ("+".join(sorted(changed)) or "nothing"))
+            out.fail(fam, "a KeplerNum object whose public attributes were changed between two calls does not return what a fresh propagator configured with the "
+                          "current values returns (" + bad[0] + ")" + (": it still integrates with the former " + ", ".join(stale) if stale else ""),
+                     inp, observed=bad[1], expected=bad[2])
+            return
+        # the result is the two-body solution within the accuracy of the CURRENT configuration
+        if cfg["bodies"] == ["Earth"] and not cfg["maneuvers"] and cfg["method"] != "euler" and cfg["frame"] == "EME2000":
+            h, T = cfg["step"], leg["T"]
+            nh, vmax = o["n_p"] * h, math.sqrt(mu * (1 + o["e"]) / o["rp"])
+            for d, a in got:
+                dt = (d - orb.date).total_seconds()
+                nT = o["n_p"] * abs(dt)
+                acc = (0.5 * o["rp"] * nh ** 4 * (1 + nT) ** 2) if cfg["method"] == "rk4" else 10 * (abs(dt) / h + 16) * cfg["tol"] * (1 + nT)
+                err = float(np.linalg.norm(a[:3] - kepler_ref(o["x0"], dt, mu)[:3]))
+                lim = 0.012 + acc + interp_tol(o, h, vmax)
+                if not err <= lim:
+                    out.fail("reuse-error-" + cfg["method"], "after its attributes were changed, the propagator's result is farther from the analytical solution than the "
+                             "accuracy of the configuration now set", dict(inp, date_offset=dt), observed=err, expected=lim)
+                    return
+
+
 def oracle(ctx, widened):
     out = Outcome()
     rng = ctx.rng
@@ -826,7 +1101,25 @@ def oracle(ctx, widened):
     cap = 900 if big else 130     # integration steps per run (the +-3 orbit quantifier is reached in the thorough tier)
     t_start = time.time()
     stuck = {}
-    for k in range(ncases):
+    known = core.load_known()
+    B = 40 if big else 20
+
+    def run(fam, inp_, fn, *args):
+        # a family that made no progress twice is not tried again (each attempt costs the whole budget B)
+        if stuck.get(fam, 0) >= 2:
+            out.tally("skipped-after-no-progress=" + fam)
+            return
+        n0 = len(out.failures)
+        guarded(out, B, fam, inp_, fn, *args)
+        if any(f["family"].endswith("-no-progress") for f in out.failures[n0:]):
+            stuck[fam] = stuck.get(fam, 0) + 1
+
+    def found():
+        # something no longer checks (widened sweep, quick tier): the sweep has done its job as soon as it holds a failing input
+        # that is not a listed open finding
+        return widened and not ctx.thorough and any(core.match_known(ID, f, known) is None for f in out.failures)
+
+    def draw():
         o = gen_orbit(rng, mu)
         h = q(rng.uniform(5, 120)) if rng.random() < 0.8 else rng.choice([5.0, 120.0, 60.0])
         T = q(rng.uniform(-3, 3) * o["period"])
@@ -836,34 +1129,58 @@ def oracle(ctx, widened):
             T = math.copysign(h * rng.randint(1, 12), T)   # on a node, short spans included
         if T == 0:
             T = h
+        return o, h, T
+
+    # ---- phase A: the cheap families (a few dozen integration steps each), every method, both directions
+    nA = ncases * 2
+    for k in range(nA):
+        if found():
+            break
+        if time.time() - t_start > (120 if ctx.thorough else 60 if widened else 14):
+            out.notes.append(f"oracle phase A stopped after {k} of {nA} orbits: time budget of the tier reached")
+            break
+        o, h, T = draw()
+        tol = 10 ** rng.uniform(-6, -2)
+        m = METHODS[k % 4]
+        plan = plan_short(rng, o, h, m, tol=tol if k % 2 else 1e-3, form=SHORT_FORMS[(k // 4) % len(SHORT_FORMS)] if k % 3 else None)
+        run("short-span-" + plan["form"], dict(case_inp(o, h, plan["span"]), **plan), run_short, out, o, mu, plan)
+        # adaptive integrators over at most 30 steps, forward and backward in turn, coarse steps included
+        Ts = q(math.copysign(min(abs(T), h * rng.uniform(1, 30)), 1 if k % 2 else -1))
+        ma = ADAPTIVE[(k // 2) % 2]
+        t_ = 1e-3 if k % 4 < 2 else tol
+        run(ma, dict(case_inp(o, h, Ts), method=ma, tol=t_), check_adaptive, out, o, h, Ts, mu, ma, t_)
+        if k % 2 == 0:
+            rp_ = plan_reuse(rng, o, first=REUSE_ATTRS[(k // 2) % len(REUSE_ATTRS)] if k % 4 == 0 else None)
+            run("reuse", dict(case_inp(o, rp_["initial"]["step"], 0.0), plan=rp_), run_reuse, out, o, mu, rp_)
+        else:
+            m2 = METHODS[1 + (k // 2) % 3]
+            Tc = q(math.copysign(min(abs(T), h * rng.uniform(2, 40)), T))
+            run("chained-" + m2, dict(case_inp(o, h, Tc), method=m2, tol=tol), check_chained, out, o, h, Tc, mu, m2, tol)
+    # ---- phase B: convergence order by step halving, long spans
+    for k in range(ncases):
+        if found():
+            break
+        o, h, T = draw()
         out.tally("full-3-orbit-horizon" if abs(T) >= 0.99 * 3 * o["period"] else "horizon<3 orbits")
         inp = case_inp(o, h, T)
-        B = 40 if big else 20
-        if time.time() - t_start > (480 if ctx.thorough else 330 if widened else 45):
+        if time.time() - t_start > (480 if ctx.thorough else 330 if widened else 42):
             out.notes.append(f"oracle stopped after {k} of {ncases} orbits: time budget of the tier reached")
             break
-
-        def run(fam, inp_, fn, *args):
-            # a family that made no progress twice is not tried again (each attempt costs the whole budget B)
-            if stuck.get(fam, 0) >= 2:
-                out.tally("skipped-after-no-progress=" + fam)
-                return
-            n0 = len(out.failures)
-            guarded(out, B, fam, inp_, fn, *args)
-            if any(f["family"].endswith("-no-progress") for f in out.failures[n0:]):
-                stuck[fam] = stuck.get(fam, 0) + 1
         run("rk4", inp, check_rk4, out, o, h, T, mu, big and k % 4 == 0)
         run("euler", inp, check_euler, out, o, h, T, mu)
         tol = 10 ** rng.uniform(-6, -2)
-        for method in ADAPTIVE:
-            t_ = 1e-3 if k % 2 else tol
-            run(method, dict(inp, method=method, tol=t_), check_adaptive, out, o, h, T, mu, method, t_)
-        m = METHODS[1 + k % 3]
+        method = ADAPTIVE[k % 2]
+        t_ = 1e-3 if k % 4 < 2 else tol
+        run(method, dict(inp, method=method, tol=t_), check_adaptive, out, o, h, T, mu, method, t_)
+        m = METHODS[k % 4]
         run("independence-" + m, dict(inp, method=m), check_independence, out, o, h, mu, m, rng)
         m2 = METHODS[1 + (k + 1) % 3]
         run("chained-" + m2, dict(inp, method=m2, tol=tol), check_chained, out, o, h, T, mu, m2, tol)
-    out.sample({"checks": "rk4 order by step halving + error bound + first integrals; euler order; rkf54/dopri54 global error, drift, one-step error <= 2 tol; "
-                          "independence of output step, dates vs step, propagate vs iterate; chained propagate keeps settings"})
+    out.sample({"checks": "short spans (1..10 integration steps; output step smaller / equal / larger / incommensurate, date lists, ranges, backward, "
+                          "offset start, Orbit.ephem) iterate vs propagate vs analytical, every method; one KeplerNum object re-used after changes of "
+                          "method / step / tol / bodies / frame / maneuvers / bound orbit vs a fresh propagator; rk4 order by step halving + error bound + "
+                          "first integrals; euler order; rkf54/dopri54 global error, drift, one-step error <= 2 tol; independence of output step, dates vs "
+                          "step, propagate vs iterate; chained propagate keeps settings"})
     return out
 
 
@@ -878,7 +1195,13 @@ def replay(f):
     fam = f["family"]
     import random
     B = 120
-    if fam.startswith("rk4"):
+    if fam.startswith("short-span"):
+        plan = {k_: i[k_] for k_ in ("form", "method", "tol", "nsteps", "out_step", "offsets", "start") if k_ in i}
+        plan.update(step=i["step"], span=i["T"])
+        guarded(out, B, "short-span-" + plan["form"], i, run_short, out, o, mu, plan)
+    elif fam.startswith("reuse"):
+        guarded(out, B, "reuse", i, run_reuse, out, o, mu, i["plan"])
+    elif fam.startswith("rk4"):
         guarded(out, B, "rk4", i, check_rk4, out, o, i["step"], i["T"], mu, False)
     elif fam.startswith("euler"):
         guarded(out, B, "euler", i, check_euler, out, o, i["step"] * (4 if fam in ("euler-order", "euler-error-bound") else 1), i["T"], mu)
